@@ -75,6 +75,8 @@ type sys struct {
 	bad       []string // violations raised inside service goroutines, reported by the next Apply
 	backoffs  []time.Duration
 	sup       *supervisor.VerifSupervisor
+	failedAt  map[string][2]int // dn -> (sleeper releases, parent incarnation) at the time it failed with a live context
+	releases  int
 }
 
 func (s *sys) body(dn string) supervisor.Runnable {
@@ -89,6 +91,15 @@ func (s *sys) body(dn string) supervisor.Runnable {
 		}
 		if s.cancelled {
 			s.bad = append(s.bad, "service "+dn+" was started after the supervisor's context was cancelled")
+		}
+		if at, ok := s.failedAt[dn]; ok {
+			// the service's OWN node was rescheduled (its parent instance is still the one that was running when
+			// it failed - otherwise the parent was restarted and re-created it, which needs no back-off) and no
+			// back-off sleeper has been released since the failure
+			if at[0] == s.releases && at[1] == s.incs[parentOf(dn)] {
+				s.bad = append(s.bad, "service "+dn+" was restarted after a failure without any back-off")
+			}
+			delete(s.failedAt, dn)
 		}
 		s.mu.Unlock()
 		exit := func(how string) {
@@ -135,6 +146,11 @@ func (s *sys) body(dn string) supervisor.Runnable {
 			case c == "nil":
 				exit("nil")
 				return nil
+			case c == "ctxerr":
+				// a failure whose error unwraps to context.Canceled although the supervisor never cancelled this
+				// service (an internal sub-context it cancelled itself)
+				exit("ctxerr")
+				return fmt.Errorf("internal operation: %w", context.Canceled)
 			case c == "panic":
 				exit("panic")
 				panic("scripted panic")
@@ -146,13 +162,20 @@ func (s *sys) body(dn string) supervisor.Runnable {
 	}
 }
 
+func parentOf(dn string) string {
+	if i := strings.LastIndex(dn, "."); i > 0 {
+		return dn[:i]
+	}
+	return ""
+}
+
 func ignore(g quiesce.Goroutine) bool {
 	return !(g.Has("pkg/supervisor.") || g.Has("verifh/C18.") || g.Has("verifh/vtime."))
 }
 
 func newSys(cfg *config) *sys {
 	vtime.ResetClock(time.Unix(1_700_000_000, 0))
-	s := &sys{cfg: cfg, live: map[string][]*instance{}, incs: map[string]int{}, lastExit: map[string]string{}}
+	s := &sys{cfg: cfg, live: map[string][]*instance{}, incs: map[string]int{}, lastExit: map[string]string{}, failedAt: map[string][2]int{}}
 	ctx, cancel := context.WithCancel(context.Background())
 	s.cancel = cancel
 	var opts []supervisor.SupervisorOpt
@@ -164,7 +187,7 @@ func newSys(cfg *config) *sys {
 		s.alphabet = append(s.alphabet, "step:"+sv.DN)
 	}
 	for _, sv := range cfg.Services {
-		for _, k := range []string{"err", "nil", "panic"} {
+		for _, k := range []string{"err", "nil", "panic", "ctxerr"} {
 			if k == "panic" && cfg.NoPanic {
 				continue
 			}
@@ -307,6 +330,9 @@ func (s *sys) do(a string) {
 		in := s.current(p[1])
 		in.cmd <- nextSetup(s.cfg.spec(p[1]), in)
 	case "fail":
+		s.mu.Lock()
+		s.failedAt[p[1]] = [2]int{s.releases, s.incs[parentOf(p[1])]}
+		s.mu.Unlock()
 		s.current(p[1]).cmd <- p[2]
 	case "notice":
 		for _, in := range s.running() {
@@ -321,6 +347,9 @@ func (s *sys) do(a string) {
 		}
 		s.dirty = false
 	case "release":
+		s.mu.Lock()
+		s.releases++
+		s.mu.Unlock()
 		for _, w := range vtime.Find("sleep", "") {
 			s.backoffs = append(s.backoffs, w.Period)
 			w.Fire()
@@ -452,6 +481,9 @@ func closing(cfg *config) func(mc.Sys, []int) {
 				s.quiesce()
 			}
 			if ws := vtime.Find("sleep", ""); len(ws) > 0 {
+				s.mu.Lock()
+				s.releases++
+				s.mu.Unlock()
 				for _, w := range ws {
 					w.Fire()
 				}
